@@ -60,6 +60,11 @@ func (u *Unit) cutLoop(st *State, fr *Frame, b *ssa.BasicBlock, lc *LoopContract
 	if !u.havocLoop(st, fr, lc) {
 		return nil
 	}
+	if u.loopAllocates(fr, lc) {
+		a0 := st.alloc
+		st.alloc = Fresh("alloc.loop", SortInt)
+		st.assume(IntLe(a0, st.alloc))
+	}
 	for _, cl := range lc.Invariants {
 		if !cl.visible(u.prop) {
 			continue
@@ -495,4 +500,37 @@ func inheritFresh(old, nv Value) {
 			}
 		}
 	}
+}
+
+// loopAllocates: does the loop body contain an allocation site (make, new, append, heap cell, conversion, call)?
+func (u *Unit) loopAllocates(fr *Frame, lc *LoopContract) bool {
+	for blk := range lc.body {
+		for _, in := range blk.Instrs {
+			switch x := in.(type) {
+			case *ssa.Alloc:
+				if x.Heap && (x.Comment == "new" || x.Comment == "complit" || x.Comment == "slicelit" || x.Comment == "makeslice") {
+					return true
+				}
+			case *ssa.MakeSlice, *ssa.MakeMap, *ssa.MakeInterface, *ssa.MakeClosure:
+				return true
+			case *ssa.Convert:
+				if isStringType(x.Type()) || isStringType(x.X.Type()) {
+					return true
+				}
+			case *ssa.BinOp:
+				if isStringType(x.Type()) {
+					return true
+				}
+			case *ssa.Call:
+				if bi, ok := x.Common().Value.(*ssa.Builtin); ok {
+					if bi.Name() == "append" {
+						return true
+					}
+					continue
+				}
+				return true
+			}
+		}
+	}
+	return false
 }
